@@ -1,5 +1,5 @@
 /- Driver ops for MultiCVRP.  Ops: multi_cvrp.step, multi_cvrp.state, multi_cvrp.judge,
-multi_cvrp.instance
+multi_cvrp.instance, multi_cvrp.bounds
 
 State JSON (= `envs/multi_cvrp.py: ser_state`): coordinates, demands, win_start, win_end, coef_early,
 coef_late, local_times, positions, capacities, distances, time_penalties, order, step_count,
@@ -7,9 +7,12 @@ action_mask, plus two things the adapter adds: `dist` = the (num_customers+1)² 
 distances between the coordinates (`multi_cvrp.instance` checks it against the coordinates) and
 `demands0` = the demands of the instance at reset (the state itself forgets a demand once served).
 cfg JSON: {"num_customers", "num_vehicles", "max_capacity", "dense", "f32", "map_max", "demand_max",
-"max_start_window", "window_length", "full_load"}. -/
+"max_start_window", "window_length", "full_load", "coef_early_max", "coef_late_max", "dist_max"}
+(the last three are read by `multi_cvrp.bounds` only: upper ends of the coefficient ranges and an upper
+bound on the distance between two nodes of the map). -/
 import JumanjiModel.Bridge.Json
 import JumanjiModel.Env.MultiCVRP.Model
+import JumanjiModel.Env.MultiCVRP.Bounds
 import JumanjiModel.Prim.Float
 open Lean Jb
 
@@ -148,7 +151,24 @@ def opInstance : Op := fun j => do
               ("feasible", jBool (decide (Feasible c s.demands s))),
               ("dist_matches_coordinates", jBool (distMatches (1 / 100000) s.coords D))])
 
+def getLim (cfg : Json) : Except String Lim := do
+  pure { mapMax := ← fRat cfg "map_max", demandMax := ← fInt cfg "demand_max",
+         maxStart := ← fRat cfg "max_start_window", windowLen := ← fRat cfg "window_length",
+         coefEarlyMax := ← fRat cfg "coef_early_max", coefLateMax := ← fRat cfg "coef_late_max",
+         dmax := ← fRat cfg "dist_max" }
+
+def jBounds (t : Jm.OB.Table) : Json :=
+  jObj (t.map fun e => (e.1, jObj [("lo", match e.2.1 with | some r => jRat r | none => Json.null),
+                                   ("hi", match e.2.2 with | some r => jRat r | none => Json.null)]))
+
+/-- {"cfg": {...}} → {leaf path: {"lo": rat|null, "hi": rat|null}}: the proved observation bounds (C01),
+`obsBounds c L` with `c`, `L` read from the cfg -/
+def opBounds : Op := fun j => do
+  let c ← getCfg j
+  let L ← getLim (← field j "cfg")
+  pure (jBounds (obsBounds c L))
+
 def ops : List (String × Op) :=
   [("multi_cvrp.step", opStep), ("multi_cvrp.state", opState), ("multi_cvrp.judge", opJudge),
-   ("multi_cvrp.instance", opInstance)]
+   ("multi_cvrp.instance", opInstance), ("multi_cvrp.bounds", opBounds)]
 end Jb.MultiCVRP
